@@ -22,7 +22,7 @@ for line in open(os.path.join(HERE, 'properties.jsonl')):
     for m in sorted(glob.glob(os.path.join(HERE, 'seeded', '*', 'meta.json'))):
         meta = json.load(open(m))
         if meta.get('property') == pid:
-            name = re.sub(r'^c\d\db?-', '', meta['name']).replace('-', ' ')
+            name = re.sub(r'^c\d\d[a-z]?-', '', meta['name']).replace('-', ' ')
             prior.append(' - %s (files %s; manifests with: %s)' % (name, ', '.join(meta.get('files', [])), meta.get('needs_to_manifest')))
     text = (head.replace('/tmp/wt2-c15', wt) + 'The semantic property you are to break:\n\n' +
             '%s — %s\n\nStatement: %s\n\nQuantified over: %s\n\nAnchored in files: %s\n\n\n' % (
